@@ -211,7 +211,7 @@ def cases(draw):
     # arrivals pairwise distinct, departures pairwise distinct, estimated departures pairwise
     # distinct (no sort key ties), sessions on one station do not overlap, sessions on different
     # stations overlap heavily (contention)
-    crowd = draw(st.integers(0, 3)) == 0  # every station busy almost at once
+    crowd = draw(st.integers(0, 3)) == 0 or (kind in ("greedy", "rr") and draw(st.booleans()))  # every station busy almost at once
     counts = [draw(st.sampled_from([1, 2] if crowd else [0, 1, 1, 1, 2])) for _ in range(n)]
     if sum(counts) < 2:
         counts[0] = counts[-1] = 1
@@ -251,7 +251,7 @@ def cases(draw):
     cons = draw(sc.constraint_lists(stations, 3, limits=(8.0, 12.0, 20.0, 30.0) + tuple(round(demand * f, 3) for f in (0.2, 0.4, 1.0, 2.0))))
     if kind == "scripted":
         sch = draw(sc.scripted_schedulers(stations))
-        sch["probe"] = draw(st.booleans())
+        sch["probe"] = draw(st.integers(0, 3)) > 0
         if sch.get("max_recompute") is None and draw(st.booleans()):
             sch["by_calls"] = True  # the n-th call returns the n-th entry (playback)
         if sch["probe"]:
